@@ -121,6 +121,18 @@ func classify(vw view, d []byte) (string, verdict) {
 	case 21:
 		return "plain/alert", mayAbort
 	case 22:
+		// A handshake record whose body does not even start with a complete handshake fragment (fewer than
+		// 12 bytes for the fragment header, or a fragment_length that exceeds what is left in the record) is
+		// not a decodable DTLS record: "decode errors are logged and dropped" (RFC 6347 4.1.2.7; the
+		// bufferHandshakeRecord mechanism the property names). Once a first fragment decodes, the endpoint may
+		// act on it (garbage behind it or not), so the record may legitimately abort.
+		body := d[hdr : hdr+n]
+		if len(body) < 12 {
+			return "plain/handshake-undecodable", mustSurvive
+		}
+		if fl := int(body[9])<<16 | int(body[10])<<8 | int(body[11]); fl > len(body)-12 {
+			return "plain/handshake-undecodable", mustSurvive
+		}
 		return "plain/handshake", mayAbort
 	case 23:
 		return "plain/appdata-epoch0", mayAbort
